@@ -1077,6 +1077,18 @@ MUTANTS = [
       "            # The Jinja parser is recursive",
       "        except MemoryError:\n"
       "            # The Jinja parser is recursive"),
+    # F36 put back
+    m('C05-rerun-drops-triggered-by', 'C05', ['R9'], E + 'tasks.py',
+      "            if triggered_by:\n                runtime_context["
+      "'triggered_by'] = triggered_by\n",
+      "            if False:\n                runtime_context["
+      "'triggered_by'] = triggered_by\n"),
+    m('C12-rerun-restores-triggered-by-for-joins-only', 'C12', ['R8'],
+      E + 'tasks.py',
+      "            if triggered_by:\n                runtime_context["
+      "'triggered_by'] = triggered_by\n",
+      "            if triggered_by and self.task_spec.get_join():\n"
+      "                runtime_context['triggered_by'] = triggered_by\n"),
     # F32-F34 put back
     m('C14-version-overflow-not-caught', 'C14', ['R12'],
       'mistral/lang/parser.py',
@@ -1445,6 +1457,9 @@ REFACTORS = [
       "\n\n        if clause_publish:\n"
       "            if spec:\n                clause_publish.merge(spec)"
       "\n\n            return clause_publish"),
+    r('C05-ref-cleanup-pops-triggered-by', 'C05', E + 'tasks.py',
+      "            triggered_by = runtime_context.get('triggered_by')\n",
+      "            triggered_by = runtime_context.pop('triggered_by', None)\n"),
     r('C14-ref-version-broad-handler', 'C14', 'mistral/lang/parser.py',
       "    except (ValueError, TypeError, OverflowError):",
       "    except (ValueError, TypeError, ArithmeticError):"),
